@@ -158,6 +158,21 @@ func (c *C) RPC(m *ref9p.Msg) (*ref9p.Msg, error) {
 	return r, nil
 }
 
+// RPCTag is RPC with the tag the caller put into m.
+func (c *C) RPCTag(m *ref9p.Msg) (*ref9p.Msg, error) {
+	if err := c.Send(m); err != nil {
+		return nil, err
+	}
+	r, raw, err := c.Recv()
+	if err != nil {
+		return nil, err
+	}
+	if r.Tag != m.Tag {
+		return r, fmt.Errorf("rawc: reply tag %d for request tag %d: %x", r.Tag, m.Tag, trunc(raw))
+	}
+	return r, nil
+}
+
 // Version negotiates; on success the client adopts the dialect and msize of the reply.
 func (c *C) Version(msize uint32, version string) (*ref9p.Msg, error) {
 	// the reply to Tversion has no dialect-specific fields unless it is an Rerror
